@@ -22,6 +22,12 @@ CHECKS = {
     "C05": dict(engine="TermMachine", ref="5/C05",
                 text="TLC enumerates nestings of binder-introducing constructors (Reduce, Lambda, Cat part names, Subs keys, products under normalize = Contraction) where every bound and free name ranges over {a,b,c}; each is built under reflect, lazy, normalize and eager and reinterpreted: no bound (or mangled) name among the inputs, inputs exactly the free names, values equal Den (no capture).",
                 note="trusted as C01; bounds: 2 leaves + 2 constructor steps (3 in thorough), 3 names of size 2"),
+    "C03": dict(engine="TermMachine", ref="5/C03",
+                text="Every program of the TermMachine lenses is built under lazy / reflect / normalize and reinterpreted eagerly, evaluated under sequential and moment_matching, and built twice under memoize (identical object required); each result is compared with the value table, output domain and inputs TLC computed from the L1 denotation, in the four configurations FUNSOR_USE_TCO x FUNSOR_TYPECHECK (both reinterpreters).",
+                note="trusted as C01; programs outside the semiring carrier (max/min paired with mul on negative data) are not judged; Gaussian mixtures are outside these lenses; memoisation of *different* arguments is checked only through values"),
+    "C08": dict(engine="TermMachine+Judge", ref="5/C08",
+                text="TLC enumerates sum-product expressions per semiring (add/mul, logaddexp/add, max/add, min/add, max/mul and min/mul on non-negative data, or/and on booleans): products, sums, reductions over every subset of {i,j,k} and Contraction nodes whose reduced variables are present in all, some or none of the operands, with unit constants. Each expression is built lazily; the normalised, unfolded and optimizer-rebracketed TERMS are serialised and validated by TLC (Judge.tla) against the naive denotation; their eager values, apply_optimizer's value and einsum() are compared with the table TLC emitted; normalize must be idempotent (identical object).",
+                note="trusted as C01/C02; bounds: <=3 leaves, <=2 constructor steps quick (3 thorough, first N programs in breadth-first order), sizes 2-3; einsum equations are those induced by the generated expressions"),
 }
 
 NOT_YET = "check not built yet in this round (planned, see DESIGN.md section 5)"
